@@ -1,9 +1,16 @@
 import Mhd.Model.Hash.Sha256
 import Mhd.Model.Hash.SpecSha256
+import Mhd.Model.Hash.Md5
+import Mhd.Model.Hash.SpecMd5
+import Mhd.Model.Hash.Sha512
+import Mhd.Model.Hash.SpecSha512
+import Mhd.Model.Hash.Sha1
+import Mhd.Model.Hash.SpecSha1
 import Driver.Common
 /-
   Model driver of engine `hash`.  Script ops (one output line each):
     init   <alg>             -> ok
+    setcount <alg> <count> <hi> -> ok   (white box, see harness/h_hash.c)
     update <alg> <off> <hex> -> ok | fault <site>
     finish <alg>             -> digest <hex> | fault <site>
     spec   <alg> <hex>       -> digest <hex>        (the specification, one-shot)
@@ -12,6 +19,10 @@ open Mhd.Hash Driver
 
 structure St where
   sha256 : Ctx (R8 UInt32)
+  md5 : Ctx (R4 UInt32)
+  sha512 : Ctx (R8 UInt64)
+  sha1 : Ctx (R5 UInt32)
+  wssha1 : Ctx (R5 UInt32)
 
 def showFault : Fault → String
   | .bufWrite => "fault buf-write" | .bufFill => "fault buf-fill"
@@ -31,6 +42,15 @@ def doFinish {S : Type} (A : Alg S) (c : Ctx S) : Ctx S × String :=
   | .ok (dg, c') => (c', s!"digest {hexOfBytes dg}")
   | .error e => (c, showFault e)
 
+/-- white box: overwrite the byte counters (see harness) -/
+def doSetCount {S : Type} (A : Alg S) (c : Ctx S) (n hi : String) (useHi : Bool) : Ctx S × String :=
+  match n.toNat?, hi.toNat? with
+  | some n, some hi =>
+    if n < 2 ^ 64 ∧ hi < 2 ^ 64 ∧ n % A.B = 0 then
+      ({ c with count := n, countHi := if useHi then hi else c.countHi }, "ok")
+    else (c, "bad-op")
+  | _, _ => (c, "bad-op")
+
 def stepLine (s : St) (ws : List String) : St × List String :=
   match ws with
   | ["init", "sha256"] => ({ s with sha256 := init Sha256.alg s.sha256 }, ["ok"])
@@ -38,11 +58,60 @@ def stepLine (s : St) (ws : List String) : St × List String :=
     match off.toNat?, bytesOfHex hex with
     | some o, some d => let (c, r) := doUpdate Sha256.alg s.sha256 o d; ({ s with sha256 := c }, [r])
     | _, _ => (s, ["bad-op"])
+  | ["setcount", "sha256", n, hi] => let (c, r) := doSetCount Sha256.alg s.sha256 n hi false; ({ s with sha256 := c }, [r])
   | ["finish", "sha256"] => let (c, r) := doFinish Sha256.alg s.sha256; ({ s with sha256 := c }, [r])
   | ["spec", "sha256", hex] =>
     match bytesOfHex hex with
     | some d => (s, [s!"digest {hexOfBytes (Spec.Sha256.hash d)}"])
     | none => (s, ["bad-op"])
+  | ["init", "md5"] => ({ s with md5 := init Md5.alg s.md5 }, ["ok"])
+  | ["update", "md5", off, hex] =>
+    match off.toNat?, bytesOfHex hex with
+    | some o, some d => let (c, r) := doUpdate Md5.alg s.md5 o d; ({ s with md5 := c }, [r])
+    | _, _ => (s, ["bad-op"])
+  | ["setcount", "md5", n, hi] => let (c, r) := doSetCount Md5.alg s.md5 n hi false; ({ s with md5 := c }, [r])
+  | ["finish", "md5"] => let (c, r) := doFinish Md5.alg s.md5; ({ s with md5 := c }, [r])
+  | ["spec", "md5", hex] =>
+    match bytesOfHex hex with
+    | some d => (s, [s!"digest {hexOfBytes (Spec.Md5.hash d)}"])
+    | none => (s, ["bad-op"])
+  | ["init", "sha512_256"] => ({ s with sha512 := init Sha512.alg s.sha512 }, ["ok"])
+  | ["update", "sha512_256", off, hex] =>
+    match off.toNat?, bytesOfHex hex with
+    | some o, some d => let (c, r) := doUpdate Sha512.alg s.sha512 o d; ({ s with sha512 := c }, [r])
+    | _, _ => (s, ["bad-op"])
+  | ["setcount", "sha512_256", n, hi] => let (c, r) := doSetCount Sha512.alg s.sha512 n hi true; ({ s with sha512 := c }, [r])
+  | ["finish", "sha512_256"] => let (c, r) := doFinish Sha512.alg s.sha512; ({ s with sha512 := c }, [r])
+  | ["spec", "sha512_256", hex] =>
+    match bytesOfHex hex with
+    | some d => (s, [s!"digest {hexOfBytes (Spec.Sha512.hash d)}"])
+    | none => (s, ["bad-op"])
+  | ["init", "sha1"] => ({ s with sha1 := init Sha1.alg s.sha1 }, ["ok"])
+  | ["update", "sha1", off, hex] =>
+    match off.toNat?, bytesOfHex hex with
+    | some o, some d => let (c, r) := doUpdate Sha1.alg s.sha1 o d; ({ s with sha1 := c }, [r])
+    | _, _ => (s, ["bad-op"])
+  | ["setcount", "sha1", n, hi] => let (c, r) := doSetCount Sha1.alg s.sha1 n hi false; ({ s with sha1 := c }, [r])
+  | ["finish", "sha1"] => let (c, r) := doFinish Sha1.alg s.sha1; ({ s with sha1 := c }, [r])
+  | ["spec", "sha1", hex] =>
+    match bytesOfHex hex with
+    | some d => (s, [s!"digest {hexOfBytes (Spec.Sha1.hash d)}"])
+    | none => (s, ["bad-op"])
+  | ["init", "wssha1"] => ({ s with wssha1 := init Sha1.wsAlg s.wssha1 }, ["ok"])
+  | ["update", "wssha1", off, hex] =>
+    match off.toNat?, bytesOfHex hex with
+    | some o, some d => let (c, r) := doUpdate Sha1.wsAlg s.wssha1 o d; ({ s with wssha1 := c }, [r])
+    | _, _ => (s, ["bad-op"])
+  | ["setcount", "wssha1", n, hi] => let (c, r) := doSetCount Sha1.wsAlg s.wssha1 n hi false; ({ s with wssha1 := c }, [r])
+  | ["finish", "wssha1"] => let (c, r) := doFinish Sha1.wsAlg s.wssha1; ({ s with wssha1 := c }, [r])
+  | ["spec", "wssha1", hex] =>
+    match bytesOfHex hex with
+    | some d => (s, [s!"digest {hexOfBytes (Spec.Sha1.hash d)}"])
+    | none => (s, ["bad-op"])
   | _ => (s, ["bad-op"])
 
-def main : IO Unit := runEngine { sha256 := junk Sha256.alg } stepLine
+def st0 : St :=
+  { sha256 := junk Sha256.alg, md5 := junk Md5.alg, sha512 := junk Sha512.alg,
+    sha1 := junk Sha1.alg, wssha1 := junk Sha1.wsAlg }
+
+def main : IO Unit := runEngine st0 stepLine
